@@ -12,7 +12,7 @@ RULE = ("(a) pass: random programs (anonymous and native gate sets) with subcirc
         "non-trivial = program contains a subcircuit block; distinct = S-expression + mode")
 ASSUMPTIONS = ["reference expansion in vf/meaning.py", "harness native gate set (vf/gateset.py)"]
 TIERS = {"quick": {"shards": 8, "budget_s": 90}, "thorough": {"shards": 16, "budget_s": 300}}
-REQUIRE = {"native:only-one-bounding-gate": 40, "caller:names-mixed": 100, "subcircuit-body-with-explicit-prepare-or-measure": 300, "route:build": 500, "native:partial": 100, "calls-after-earlier-call-on-same-object": 500, "sub-in-macro": 20, "sub-in-loop": 20, "mode:pass": 200, "mode:exec": 100, "native-bounding-gates": 50,
+REQUIRE = {"macro-named-like-a-bounding-gate": 150, "native:only-one-bounding-gate": 40, "caller:names-mixed": 100, "subcircuit-body-with-explicit-prepare-or-measure": 300, "route:build": 500, "native:partial": 100, "calls-after-earlier-call-on-same-object": 500, "sub-in-macro": 20, "sub-in-loop": 20, "mode:pass": 200, "mode:exec": 100, "native-bounding-gates": 50,
            "caller-bounding-gates": 20, "exec-readouts-compared": 100}
 
 NATIVE = None
@@ -175,6 +175,19 @@ def judge_pass(case):
         else:
             lib.outcome(lib.expand_subcircuits, c, GateDefinition("other_prep"), GateDefinition("other_meas"))
     o = lib.outcome(lib.expand_subcircuits, c, *args)
+    clash = sorted(nm for nm in (pname, mname) if nm in c.macros)
+    if clash and (count_sub_ir(c) or 0) > 0:
+        # a macro of the circuit carries the name of a bounding gate: the gate the pass would insert would be taken for a
+        # call of that macro, wherever the macro is declared -- the pass has to refuse
+        if o[0] == "ok":
+            return "ok", [("bounding-gate-name-taken-by-a-macro-but-accepted", {"names": clash, "macros": list(c.macros)})]
+        if o[0] == "exc":
+            return "ok", [("crash:" + o[1], {"error": o[2]})]
+        return "ok", []
+    if clash:
+        # no subcircuit block at all: nothing to insert; calls of that macro are ordinary calls (the clauses below, which
+        # tell inserted gates by their names, do not apply)
+        return "ok", ([("crash:" + o[1], {"error": o[2]})] if o[0] == "exc" else [])
     if o[0] == "jaqal":
         return "ok", [("rejected-valid-program", {"error": o[2]})]
     if o[0] == "exc":
@@ -489,6 +502,15 @@ def shard(ctx):
                 if rng.random() < 0.5:
                     case["keep"] = rng.choice(["prepare_all", "measure_all"])
                     rec.count("native:only-one-bounding-gate")
+        if case["mode"] == "pass" and case.get("native") is False and rng.random() < 0.12:
+            # without a gate set a macro may carry the name of a bounding gate; it may be declared before or after the macros
+            # that hold subcircuit blocks
+            ms_ = [x[1] for x in case["prog"][1:] if x[0] == "macro"]
+            if ms_:
+                from .c10 import rename_macro
+
+                case["prog"] = rename_macro(case["prog"], rng.choice(ms_), rng.choice(["prepare_all", "measure_all"]) if case.get("caller") != "defs" else rng.choice(["my_prep", "my_meas"]))
+                rec.count("macro-named-like-a-bounding-gate")
         if case["mode"] == "pass" and rng.random() < 0.25:
             # a subcircuit block whose body itself starts with a prepare gate or ends with a measure gate: the pass
             # still adds its own bounding gates (what the result then means is another question -- C12)
